@@ -383,3 +383,5 @@ INFO["level_text"] += (" Additionally, for a catalogue of nested expressions ove
                        "up to L at once (symbolic string).")
 INFO["bounds"]["quick"]["support"] = f"{len(SUPPORT_EXPRS)} expressions, all strings over a,b,c up to 7"
 INFO["bounds"]["thorough"]["support"] = f"{len(SUPPORT_EXPRS)} expressions, all strings up to 9"
+
+INFO["technique"] = "symbolic execution of the rational operations with z3 real weights against the operations' definitions; support of nested expressions vs z3.Re for all strings <= L (symbolic string); bounded"
